@@ -29,7 +29,7 @@ def main():
     ap.add_argument('--round', default='1')
     a = ap.parse_args()
     base = '/tmp/mut/%s' % a.pid
-    wt = base + ('/wt' + a.round if a.round in ('4', '5', '6', '7', '8') else '/wt')
+    wt = base + ('/wt' + a.round if a.round in ('4', '5', '6', '7', '8', '9') else '/wt')
     od = 'out' if a.round == '1' else 'out' + a.round
     tag = 'm' if a.round == '1' else 'r%sm' % a.round
     diff = '%s/%s/m%s.diff' % (base, od, a.n)
